@@ -39,3 +39,41 @@ run C17-m1 C17
 run C17-m2 C17
 run C18-m1 C18 C01
 run C18-m2 C18
+# round 2: changes designed to escape short random histories over small alphabets
+run C01-r2m1 C01 C06
+run C01-r2m2 C01 C08
+run C02-r2m1 C02 C06
+run C02-r2m2 C02 C04
+run C03-r2m1 C03 C05
+run C03-r2m2 C03 C08
+run C04-r2m1 C04 C16
+run C04-r2m2 C04 C11
+run C05-r2m1 C05 C04
+run C05-r2m2 C05
+run C06-r2m1 C06 C13
+run C06-r2m2 C06
+run C07-r2m1 C07 C06
+run C07-r2m2 C07 C04
+run C08-r2m1 C08
+run C08-r2m2 C08 C01 C06
+run C09-r2m1 C09
+run C09-r2m2 C09
+run C10-r2m1 C10 C07
+run C10-r2m2 C10 C02
+run C11-r2m1 C11 C06
+run C11-r2m2 C11 C03
+run C12-r2m1 C12 C15
+run C12-r2m2 C12 C13
+run C13-r2m1 C13 C11
+run C13-r2m2 C13 C12
+run C14-r2m1 C14 C03
+run C14-r2m2 C14
+run C15-r2m1 C15 C13
+run C15-r2m2 C15 C03
+run C16-r2m1 C16 C06
+run C16-r2m2 C16 C04
+run C17-r2m1 C17 C09
+run C17-r2m2 C17
+run C18-r2m1 C18
+run C18-r2m2 C18 C01
+python3 tools/seeded_summary.py
